@@ -28,7 +28,7 @@ theorem covers_of_coversIn {s t : Name} {r : Nsec} {Z : ZoneView} (ht : t.fqdn =
   refine ⟨⟨h.1, ?_⟩, hnd⟩
   rcases h.2 with h2 | ⟨h2, _⟩
   · exact Or.inl h2
-  · exact Or.inr ⟨s, rfl, by rw [h2, hapex]⟩
+  · exact Or.inr (Or.inl ⟨s, rfl, by rw [h2, hapex]⟩)
 
 theorem find?_some_of_mem {α} {p : α → Bool} {l : List α} {a : α} (ha : a ∈ l) (hp : p a = true) :
     ∃ b, l.find? p = some b := by
@@ -119,7 +119,7 @@ theorem completeness_nxdomain {q s : Name} {qtype : Nat} {nsecs : List Nsec} {Z 
   have hc' : findCovering (some s) q nsecs = some c := hc
   obtain ⟨hcm, hcc⟩ := findCovering_some hc'
   obtain ⟨hccov, hcdel⟩ := coversIn_of_covers (Z := Z) hwf.q (hwf.nsecs c hcm) hsoa hapex'
-    (fun s' h => by cases h; exact hin) hcc
+    (fun s' h => by cases h; exact hin) (hZ c hcm) hcc
   have ctx : CoverCtx q (some s) nsecs c Z :=
     { qf := hwf.q, soaf := hsoa, nf := hwf.nsecs, apex := hapex', hZ := hZ,
       inzone := fun s' h => by cases h; exact hin, cmem := hcm, ccov := hccov, cdel := hcdel }
